@@ -374,6 +374,29 @@ func (in *Inst[M, A, V, E]) Run(w *Wire) *Outcome {
 		return o
 	}
 	o.PrepMsg = in.roundTrip("prep-message", msg, new(prio3.PrepMessage).New(&in.pr))
+	// the prep shares are operands of the combination: they are what they
+	// were afterwards, and combining the same list again (a retry, a second
+	// leader) gives the same message
+	if w.PrepShareEdit == nil && w.PrepMsgEdit == nil {
+		lib.Count("prep-shares-combined-twice")
+		for j := range shares {
+			if b, e := shares[j].MarshalBinary(); e != nil || !bytes.Equal(b, o.PrepShares[j]) {
+				in.viol("operand-changed", "PrepSharesToPrep", lib.D("prep_share", j, "before", o.PrepShares[j], "after", b))
+				break
+			}
+		}
+		var msg2 *prio3.PrepMessage
+		var err2 error
+		if p := lib.Try(in.entry("PrepSharesToPrep(again)"), nil, func() { msg2, err2 = in.P.PrepSharesToPrep(shares) }); p == nil {
+			var b2 []byte
+			if err2 == nil && msg2 != nil {
+				b2, _ = msg2.MarshalBinary()
+			}
+			if err2 != nil || !bytes.Equal(b2, o.PrepMsg) {
+				in.viol("second-combination-differs", "PrepSharesToPrep", lib.D("err", fmt.Sprint(err2), "first", o.PrepMsg, "second", b2))
+			}
+		}
+	}
 	for j := 0; j < n; j++ {
 		mb := o.PrepMsg
 		if w.PrepMsgEdit != nil {
